@@ -144,6 +144,11 @@ class Exploration:
         self.unknown_branches = 0
         self.t0 = time.perf_counter()
         self.paths = 0
+        self.solver = "z3"
+        self.cross_check = False
+        self.cvc5_queries = 0
+        self.cross_agree = 0
+        self.cross_disagree: list = []
 
     def new_solver(self):
         s = z3.Solver() if self.logic is None else z3.SolverFor(self.logic)
@@ -189,6 +194,8 @@ def to_term(x):
         return x.t, "bool"
     if isinstance(x, SymNum):
         return x.t, ("int" if x.is_int else "real")
+    if isinstance(x, SymFP):
+        return x.t, "fp"
     if isinstance(x, (bool,)):
         return z3.BoolVal(x), "bool"
     tn = type(x).__module__
@@ -557,8 +564,217 @@ class SymReal(SymNum):
     is_int = False
 
 
+
+# --------------------------------------------------------------------------------------------
+# IEEE-754 values (used only where rounding is the property: C16)
+F64 = z3.Float64()
+WIDE = z3.FPSort(11, 72)  # holds every integer up to 2**71 exactly; target sort of integer casts
+_RNE = z3.RNE()
+_RTZ = z3.RTZ()
+FP_EVENTS: list = []  # (kind, term, info) recorded by casts; reset by the harness
+
+
+def _fpval(x, sort):
+    """Python number -> FP numeral in `sort`, correctly rounded (what numpy/C do for a double)."""
+    if isinstance(x, bool):
+        x = int(x)
+    if isinstance(x, int):
+        if sort == F64:
+            return z3.FPVal(float(x), sort)  # int -> double is correctly rounded in CPython
+        return z3.FPVal(str(x), sort)
+    if isinstance(x, Fraction):
+        return z3.fpToFP(_RNE, _frac_term(x), sort)
+    x = float(x)
+    if x != x:
+        return z3.fpNaN(sort)
+    if x == math.inf:
+        return z3.fpPlusInfinity(sort)
+    if x == -math.inf:
+        return z3.fpMinusInfinity(sort)
+    if sort == F64:
+        return z3.FPVal(x, sort)
+    return z3.fpToFP(_RNE, z3.FPVal(x, F64), sort)
+
+
+class SymFP(Sym):
+    """A floating-point value: z3 FP term of sort Float64 (data) or WIDE (integer codes)."""
+
+    __slots__ = ("t", "code")
+
+    def __init__(self, t, code=False):
+        self.t = t
+        self.code = code  # True: an exact integer produced by a float -> integer dtype cast
+
+    def __hash__(self):
+        return id(self)
+
+    def __repr__(self):
+        return f"SymFP({z3.simplify(self.t)})"
+
+    def _widen(self):
+        return self.t if self.t.sort() == WIDE else z3.fpToFP(_RNE, self.t, WIDE)
+
+    @property
+    def sort(self):
+        return self.t.sort()
+
+    def _co(self, o):
+        """Coerce the other operand; returns (a, b) terms in a common sort or None."""
+        if isinstance(o, SymFP):
+            a, b = self.t, o.t
+            if a.sort() != b.sort():
+                if a.sort() == F64:
+                    a = z3.fpToFP(_RNE, a, WIDE)
+                else:
+                    b = z3.fpToFP(_RNE, b, WIDE)
+            return a, b
+        if isinstance(o, SymNum):
+            raise Unsupported("mixing IEEE and real/integer symbolic values")
+        if isinstance(o, SymBool):
+            return self.t, z3.If(o.t, _fpval(1, self.sort), _fpval(0, self.sort))
+        if self.code and isinstance(o, int) and not isinstance(o, bool) and self.sort == F64 and int(float(o)) != o:
+            # an integer the double format cannot hold: keep it exact in the wide sort
+            return self._widen(), _fpval(o, WIDE)
+        if isinstance(o, (int, float, Fraction)) or type(o).__module__ == "numpy":
+            try:
+                import numpy as _np
+
+                if isinstance(o, _np.generic):
+                    o = o.item()
+            except ImportError:  # pragma: no cover
+                pass
+            return self.t, _fpval(o, self.sort)
+        return None
+
+    def _arith(self, o, f, reflect=False):
+        r = self._co(o)
+        if r is None:
+            return NotImplemented
+        a, b = (r[1], r[0]) if reflect else r
+        return SymFP(f(a, b))
+
+    def __add__(self, o):
+        return self._arith(o, lambda a, b: z3.fpAdd(_RNE, a, b))
+
+    def __radd__(self, o):
+        return self._arith(o, lambda a, b: z3.fpAdd(_RNE, a, b), True)
+
+    def __sub__(self, o):
+        return self._arith(o, lambda a, b: z3.fpSub(_RNE, a, b))
+
+    def __rsub__(self, o):
+        return self._arith(o, lambda a, b: z3.fpSub(_RNE, a, b), True)
+
+    def __mul__(self, o):
+        return self._arith(o, lambda a, b: z3.fpMul(_RNE, a, b))
+
+    def __rmul__(self, o):
+        return self._arith(o, lambda a, b: z3.fpMul(_RNE, a, b), True)
+
+    def __truediv__(self, o):
+        return self._arith(o, lambda a, b: z3.fpDiv(_RNE, a, b))
+
+    def __rtruediv__(self, o):
+        return self._arith(o, lambda a, b: z3.fpDiv(_RNE, a, b), True)
+
+    def __neg__(self):
+        return SymFP(z3.fpNeg(self.t))
+
+    def __pos__(self):
+        return self
+
+    def __abs__(self):
+        return SymFP(z3.fpAbs(self.t))
+
+    def _cmp(self, o, f):
+        if self.code and isinstance(o, int) and not isinstance(o, bool) and self.sort == F64 and int(float(o)) != o:
+            # exact comparison of a double with an integer that is not a double: no double lies
+            # strictly between the neighbours below/above the integer
+            lo, hi = _fl_down(o), _fl_up(o)
+            a = self.t
+            if f is z3.fpLT or f is z3.fpLEQ:
+                return SymBool(z3.fpLEQ(a, z3.FPVal(lo, F64)))
+            if f is z3.fpGT or f is z3.fpGEQ:
+                return SymBool(z3.fpGEQ(a, z3.FPVal(hi, F64)))
+            if f is z3.fpEQ:
+                return SymBool(z3.BoolVal(False))
+            if f is z3.fpNEQ:
+                return SymBool(z3.BoolVal(True))
+        r = self._co(o)
+        if r is None:
+            return NotImplemented
+        return SymBool(f(*r))
+
+    def __lt__(self, o):
+        return self._cmp(o, z3.fpLT)
+
+    def __le__(self, o):
+        return self._cmp(o, z3.fpLEQ)
+
+    def __gt__(self, o):
+        return self._cmp(o, z3.fpGT)
+
+    def __ge__(self, o):
+        return self._cmp(o, z3.fpGEQ)
+
+    def __eq__(self, o):
+        r = self._cmp(o, z3.fpEQ)
+        return False if r is NotImplemented else r
+
+    def __ne__(self, o):
+        r = self._cmp(o, z3.fpNEQ)
+        return True if r is NotImplemented else r
+
+    def __bool__(self):
+        return current().branch(z3.Not(z3.fpIsZero(self.t)))
+
+    def __trunc__(self):
+        return SymFP(z3.fpRoundToIntegral(_RTZ, self.t))
+
+    def __floor__(self):
+        return SymFP(z3.fpRoundToIntegral(z3.RTN(), self.t))
+
+    def __ceil__(self):
+        return SymFP(z3.fpRoundToIntegral(z3.RTP(), self.t))
+
+    def __round__(self, nd=None):
+        return SymFP(z3.fpRoundToIntegral(_RNE, self.t))
+
+    def isnan(self):
+        return SymBool(z3.fpIsNaN(self.t))
+
+    def isinf(self):
+        return SymBool(z3.fpIsInf(self.t))
+
+    def to_int_code(self, info=None):
+        """float -> integer dtype cast: truncation toward zero, kept as an exact WIDE value.
+        The in-range side condition (no wrap) is recorded as an event for the harness."""
+        c = z3.fpRoundToIntegral(_RTZ, self.t)
+        FP_EVENTS.append(("cast", c, info))
+        return SymFP(c, code=True)
+
+    @property
+    def is_int(self):
+        return False
+
+
+def _fl_down(n: int) -> float:
+    f = float(n)
+    return f if int(f) <= n else math.nextafter(f, -math.inf)
+
+
+def _fl_up(n: int) -> float:
+    f = float(n)
+    return f if int(f) >= n else math.nextafter(f, math.inf)
+
+
+def fp(name, sort=None) -> "SymFP":
+    return _register(name, SymFP(z3.FP(name, sort or F64)))
+
+
 numbers.Integral.register(SymInt)
 numbers.Real.register(SymReal)
+numbers.Real.register(SymFP)
 
 
 def _guard_div(b):
@@ -594,6 +810,12 @@ def ite(c, a, b):
     (ta, ka), (tb, kb) = ra, rb
     if ka == "bool" and kb == "bool":
         return SymBool(z3.If(ct, ta, tb))
+    if ka == "fp" or kb == "fp":
+        fa = a if isinstance(a, SymFP) else None
+        fb = b if isinstance(b, SymFP) else None
+        x, y = (fa._co(b)) if fa is not None else tuple(reversed(fb._co(a)))
+        is_code = (fa is None or fa.code or not isinstance(a, SymFP)) and (fb is None or fb.code or not isinstance(b, SymFP))
+        return SymFP(z3.If(ct, x, y), code=is_code and (getattr(fa, "code", False) or getattr(fb, "code", False)))
     na, nb = _num(a), _num(b)
     x, y, i = _unify(na[0], na[1], nb[0], nb[1])
     return _mk(z3.simplify(z3.If(ct, x, y)), i)
@@ -618,6 +840,8 @@ def sym_abs(a):
 def _boolterm(x):
     if isinstance(x, SymBool):
         return x.t
+    if isinstance(x, SymFP):
+        return z3.Not(z3.fpIsZero(x.t))
     if isinstance(x, SymNum):
         return x.t != 0
     return z3.BoolVal(bool(x))
@@ -708,10 +932,32 @@ def _numeral(t):
         return True
     if z3.is_false(t):
         return False
+    if z3.is_fp(t):
+        return _fp_numeral(t)
     if z3.is_algebraic_value(t):
         a = t.approx(20)
         return Fraction(a.numerator_as_long(), a.denominator_as_long())
     return None
+
+
+def _fp_numeral(t):
+    import struct
+
+    if t.sort() == F64:
+        bv = z3.simplify(z3.fpToIEEEBV(t))
+        if z3.is_bv_value(bv):
+            return struct.unpack("<d", struct.pack("<Q", bv.as_long()))[0]
+        return None
+    if z3.is_fp_value(t):
+        if t.isNaN():
+            return math.nan
+        if t.isInf():
+            return -math.inf if t.isNegative() else math.inf
+    r = z3.simplify(z3.fpToReal(t))
+    v = _numeral(r) if not z3.is_fp(r) else None
+    if isinstance(v, Fraction) and v.denominator == 1:
+        return int(v)
+    return v
 
 
 # -- fresh symbols
@@ -794,19 +1040,49 @@ def prove(oid: str, claim, **info) -> bool:
         rec["trivial"] = True
         run.obligations.append(rec)
         return True
+    sh = run.shared
     t0 = time.perf_counter()
-    r = run._check(z3.Not(t))
+    r = None
+    if sh.solver == "cvc5":
+        from . import smt
+
+        names = list(run.inputs)
+        text = smt.z3_to_smt2(run.pc + [z3.Not(t)], get_values=names)
+        v, vals, secs = smt.cvc5_check(text, timeout_ms=sh.solver_timeout_ms, seed=sh.seed)
+        sh.queries += 1
+        sh.solver_time += secs
+        sh.cvc5_queries += 1
+        rec["solver"] = "cvc5"
+        if v == "unsat":
+            r = z3.unsat
+        elif v == "sat":
+            r = z3.sat
+            rec["model"] = {k: jsonable(vals.get(k)) for k in names}
+            rec["observed"] = {}
+        else:
+            rec["cvc5"] = vals.get("error", "unknown")
+    if r is None:
+        r = run._check(z3.Not(t))
+        rec["solver"] = rec.get("solver", "") + "+z3" if "solver" in rec else "z3"
+        if r == z3.sat:
+            m = run.solver.model()
+            rec["model"] = {k: jsonable(evalv(v, m)) for k, v in run.inputs.items()}
+            rec["observed"] = {k: jsonable(evalv(v, m)) for k, v in run.observed.items()}
+        elif r == z3.unknown:
+            rec["reason"] = run.solver.reason_unknown()
+        if sh.cross_check and r != z3.unknown:
+            from . import smt
+
+            text = smt.z3_to_smt2(run.pc + [z3.Not(t)])
+            v, vals, secs = smt.cvc5_check(text, timeout_ms=min(sh.solver_timeout_ms, 20000), seed=sh.seed)
+            sh.cvc5_queries += 1
+            sh.solver_time += secs
+            if v in ("sat", "unsat"):
+                sh.cross_agree += 1
+                if (v == "sat") != (r == z3.sat):
+                    sh.cross_disagree.append(oid)
     rec["time_s"] = round(time.perf_counter() - t0, 4)
-    if r == z3.unsat:
-        rec["verdict"] = "unsat"
-    elif r == z3.sat:
-        rec["verdict"] = "sat"
-        m = run.solver.model()
-        rec["model"] = {k: jsonable(evalv(v, m)) for k, v in run.inputs.items()}
-        rec["observed"] = {k: jsonable(evalv(v, m)) for k, v in run.observed.items()}
-    else:
-        rec["verdict"] = "unknown"
-        rec["reason"] = run.solver.reason_unknown()
+    rec["verdict"] = "unsat" if r == z3.unsat else ("sat" if r == z3.sat else "unknown")
     if (run.shared.dump_smt and r != z3.unsat) or run.shared.dump_all:
         rec["smt2"] = _dump(run, z3.Not(t))
     run.obligations.append(rec)
@@ -844,7 +1120,9 @@ def jsonable(x):
             return int(x)
         return {"frac": [x.numerator, x.denominator], "float": float(x)}
     if isinstance(x, float):
-        return x
+        if x != x or x in (math.inf, -math.inf):
+            return {"fp": repr(x), "float": None}
+        return {"fp": x.hex(), "float": x}
     if isinstance(x, dict):
         return {str(k): jsonable(v) for k, v in x.items()}
     if isinstance(x, (list, tuple)):
@@ -866,6 +1144,8 @@ def unjson(x):
     if isinstance(x, dict):
         if set(x) == {"frac", "float"}:
             return Fraction(x["frac"][0], x["frac"][1])
+        if set(x) == {"fp", "float"}:
+            return float(x["fp"]) if x["float"] is None else float.fromhex(x["fp"])
         return {k: unjson(v) for k, v in x.items()}
     if isinstance(x, list):
         return [unjson(v) for v in x]
@@ -885,12 +1165,16 @@ def explore(
     on_path: Callable[["Run", Any, BaseException | None], None] | None = None,
     dump_smt: bool = False,
     witness: bool = True,
+    solver: str = "z3",
+    cross_check: bool = False,
 ) -> dict:
     """Run ``fn`` on every feasible path.  Returns a result dictionary (picklable)."""
     global _CURRENT
     sh = Exploration(max_paths, max_seconds, solver_timeout_ms, seed, logic)
     sh.dump_smt = True if dump_smt else None
     sh.dump_all = False
+    sh.solver = solver
+    sh.cross_check = cross_check
     prefix: list = []
     res = {
         "paths": 0,
@@ -1003,4 +1287,8 @@ def explore(
     res["solver_time_s"] = round(sh.solver_time, 4)
     res["wall_s"] = round(time.perf_counter() - sh.t0, 3)
     res["unknown_branches"] = sh.unknown_branches
+    res["cvc5_queries"] = sh.cvc5_queries
+    res["cross_agree"] = sh.cross_agree
+    if sh.cross_disagree:
+        res["errors"].append("solver disagreement (z3 vs cvc5) on: " + ", ".join(sh.cross_disagree[:5]))
     return res
